@@ -183,10 +183,17 @@ func judge(c *engine.Ctx, vk string, wit func() interface{}, g *rg.G, classes []
 // full calls CanonicalIsomorphFull on a representation.
 func full(c *engine.Ctx, key string, g *rg.G, sparse bool, classes [][]int) (result, *engine.PanicInfo, string) {
 	var lg graph.Graph
+	// every fourth graph (a function of the graph) comes in a representation variant: edge bytes 1..255 and dirty
+	// spare capacity (dense), spare capacity (sparse)
+	variant := 0
+	if hv := g.M()*7 + g.N*3 + len(classes); g.N > 0 && hv%4 == 1 {
+		variant = 1 + hv%5
+		c.Obs("rep:variant(edge bytes 1..255 / spare capacity)", 1)
+	}
 	if sparse {
-		lg = g.Sparse()
+		lg = g.SparseVariant(variant)
 	} else {
-		lg = g.Dense()
+		lg = g.DenseVariant(variant)
 	}
 	var cl [][]int
 	if classes != nil {
